@@ -256,6 +256,10 @@ def thr_cases(ctx):
         hs = [_close(["load f9%04x" % rng.randrange(65536), "load 82f93c00fa7fc00000", "load 7f6161ff", "desc 1"]) + "; " + h.replace("? ", "? ") if False else h for h in hs]
         hs = [_close(["load f9%04x" % rng.randrange(65536), "load 83f93c00fa7fc00000c16161"]) if i % 2 == 0 else h for i, h in enumerate(hs)] + hs[:1]
         out.append(" || ".join(hs))
+    # every thread calls cbor_serialize_alloc with and without the optional size out-parameter, builds strings and tags
+    for n in (4, 16):
+        out.append(" || ".join(_close(["bi 0 8 %d" % (j + 1), "nia", "push 1 0", "bs 1 %s" % ("61" * (j + 1)), "push 1 2", "sallocn 1", "salloc 1", "sallocn 0", "bt %d 1" % j, "sallocn 3", "copy 3", "sallocn 4"])
+                              for j in range(n)))
     return out
 
 def depth_thr_cases(ctx):
